@@ -70,6 +70,11 @@ def edits():
     # a second id carrying the same name (tables are keyed by id): the stream then uses the NEW id for that name
     for n in dec:
         out.append((f'alias-used:{n}', lambda t, n=n: {**t, FRESH[1]: n}))
+    # names longer than any column of the listing (nobody decodes them): shown in full, two of them sharing their first 44 characters
+    for n in dec[:3]:
+        for L in (44, 45, 58, 100):
+            out.append((f'long-name:{n}:{L}', lambda t, n=n, L=L: {k: (('LONG_' + 'x' * 39 + n + '_' * L)[:L] if v == n else v) for k, v in t.items()}))
+    out.append(('long-names-sharing-a-prefix', lambda t: {k: ('P' * 44 + v if v in dec[:2] else v) for k, v in t.items()}))
     for a, b in itertools.combinations(dec, 2):
         def swap(t, a=a, b=b):
             return {k: (b if v == a else a if v == b else v) for k, v in t.items()}
@@ -152,6 +157,8 @@ def judge_supplied(opseq, edit_label, edit_fn):
     for r, (ts, tid, eid, q) in zip(recs, meta):
         if eid in T2 and T2[eid] in ids:
             new = ids[T2[eid]] if T2[eid] != UNDECODABLE or True else eid
+        elif eid in T2 and T2[eid] != T.get(eid):
+            new = ids[UNDECODABLE]       # renamed to a name nobody decodes
         elif eid in T2:
             new = eid
         else:
@@ -304,7 +311,7 @@ class C19(Check):
             'leading zeros) x name (5, incl. names containing '#', ';', '/') x separator (3) x trailing (3) = 270 line kinds, and all sequences of 3 lines over a '
             '24-kind sub-grammar (repeated ids included), each with LF and CRLF, with and without final newline; oracle: '
             'mapping == independent parse (last occurrence wins). (B) supplied tables: the bundled table and every single edit '
-            'over a 12-name working set (remove a name, move a decodable name to a fresh id, point it at an undecodable name, '
+            'over a 12-name working set (remove a name, move a decodable name to a fresh id, point it at an undecodable name, give it a name of 44/45/58/100 characters, '
             'swap two decodable names, add a second id for a name and use it in the stream, the empty table, a one-entry table: 114 tables) x all sequences of <=2 (quick) / <=3 (thorough) operations over 6 operation '
             'kinds x 2 threads; oracle: listing shows NAME (0xid) from the supplied table or bare hex; traces(stream, T\') == '
             'traces(stream with ids renamed through T\', bundled table) in type, text and window; no trace for an absent id; two lazy listings with different tables requested from one object and consumed alternately; '
